@@ -20,7 +20,7 @@ type hFailingBody struct{}
 func (hFailingBody) Read(p []byte) (int, error) { return 0, errors.New("connection reset") }
 func (hFailingBody) Close() error               { return nil }
 
-// verif:harness props=C01,C07,C08,C12,C10 tier=quick weight=60
+// verif:harness props=C01,C07,C08,C12,C10 tier=quick weight=60 tonly=C08
 // verif:bounds one ingress request through the real ServeHTTP: route resolved or not (with or without other allowed methods), rate limiter verdict, admission verdict, basic auth absent/ok/wrong, body empty / 3 bytes (symbolic when the route has no HMAC, fixed incl. NUL and 0xff when signed) / a failing read, max_body 2 or default, forward auth absent or present with the auth service answering any status or failing (havoc client) and copy_headers, HMAC absent / valid / corrupted signature, header X-A with 1 symbolic byte plus optional Authorization/Cookie/Proxy-Authorization in mixed case, max_headers tight or default, 1 or 3 fan-out targets, every Enqueue may fail
 func VerifIngressHandler() {
 	w := &hRW{}
